@@ -237,8 +237,10 @@ pub fn reply(deps: DepsMut, env: Env, msg: Reply) -> StdResult<Response> {
                 Ok(response)
             }
             PARTIAL_CLOSE_POSITION_REPLY_ID => {
-                let (input, output) = parse_swap(response).unwrap();
-                let response = partial_close_position_reply(deps, env, input, output)?;
+                // a base-denominated swap reports (base, quote); the reply expects (quote, base)
+                let (base_amount, quote_amount) = parse_swap(response).unwrap();
+                let response =
+                    partial_close_position_reply(deps, env, quote_amount, base_amount)?;
                 Ok(response)
             }
             LIQUIDATION_REPLY_ID => {
